@@ -28,6 +28,9 @@ type DuplexInput struct {
 	Steps          []DStep `json:"steps"`
 	ClientReadsAt  int     `json:"client_reads_after_ms"`  // the client starts reading only then (slow reader)
 	BackendReadsAt int     `json:"backend_reads_after_ms"` // likewise the backend
+	// Shared: the port is shared with a detector service listed before copy; the server peeks
+	// at the client's first bytes before copy runs, so such a schedule starts with a client write
+	Shared bool `json:"shared_port,omitempty"`
 }
 
 type DuplexObs struct {
@@ -96,7 +99,7 @@ func (e *env) runDuplex(in DuplexInput) (DuplexObs, string) {
 		e.rawBE.manual = nil
 		e.rawBE.mu.Unlock()
 	}()
-	srv, cc, err := e.tcpPairOn("copy")
+	srv, cc, err := e.tcpPairOn("copy", in.Shared)
 	if err != nil {
 		hx.Fatal("tcp pair: %v", err)
 	}
@@ -104,6 +107,15 @@ func (e *env) runDuplex(in DuplexInput) (DuplexObs, string) {
 	ev0 := e.capCount("copy", caddr)
 	if !inject(srv) {
 		return ob, "server does not accept"
+	}
+	steps := in.Steps
+	if in.Shared && len(steps) > 0 && steps[0].Who == "c" && len(steps[0].data()) > 0 {
+		// the server hands the connection to copy only once it has peeked at the first bytes
+		cc.Write(steps[0].data())
+		if steps[0].Eof {
+			cc.CloseWrite()
+		}
+		steps = steps[1:]
 	}
 	var bc net.Conn
 	select {
@@ -115,7 +127,7 @@ func (e *env) runDuplex(in DuplexInput) (DuplexObs, string) {
 	ob.Dials = 1
 	cr := readSide(cc, in.ClientReadsAt)
 	br := readSide(bc, in.BackendReadsAt)
-	for _, st := range in.Steps {
+	for _, st := range steps {
 		if st.Pause > 0 {
 			time.Sleep(time.Duration(st.Pause) * time.Millisecond)
 		}
@@ -248,6 +260,12 @@ func genDuplexInputs(o hx.Opts, r *hx.Rand) []DuplexInput {
 		}
 		ins = append(ins, DuplexInput{Steps: st, ClientReadsAt: r.PickInt([]int{0, 0, 40}), BackendReadsAt: r.PickInt([]int{0, 0, 40})})
 	}
+	// every third schedule that starts with a client write is run on the shared port
+	for i := range ins {
+		if st := ins[i].Steps; len(st) > 0 && st[0].Who == "c" && len(st[0].data()) > 0 && i%3 == 1 {
+			ins[i].Shared = true
+		}
+	}
 	return ins
 }
 
@@ -306,6 +324,9 @@ func runDuplexPart(o hx.Opts, r *hx.Rand, e *env, replay *Input) {
 		}
 		if in.BackendReadsAt > 0 {
 			dist["slow-backend"]++
+		}
+		if in.Shared {
+			dist["shared-port"]++
 		}
 		inp := in
 		cases = append(cases, hx.Case{ID: i, Kind: "duplex-copy", Input: Input{Part: "duplex", Duplex: &inp}, Obs: ob, Crash: crash, Coq: coqDuplexCase(i, in, ob)})
